@@ -603,6 +603,10 @@ namespace bluetoe {
                     return;
                 }
             }
+
+            // an indication that is not transmitted, will not be confirmed by the client
+            if ( pending.first == details::notification_queue_entry_type::indication )
+                connection.indication_confirmed();
         }
 
         out_size = 0;
